@@ -32,6 +32,39 @@ def gen_case(seed):
     return {"parts": parts, "mode": src.pick(MODES), "salt": src.pick(range(50))}
 
 
+SC_OPS = ["add", "mul", "sub", "pow", "max", "min", "truediv"]
+SC_LITS = [(1, "int"), (1.0, "float"), (2, "int"), (2.0, "float"), (3, "int"), (3.0, "float"), (0.5, "float")]
+
+
+def gen_scalar_case(seed):
+    """A function of funsor.ops over an integer array n and a float array x with Python int and float literals (equal
+    values of different types included): the traced / printed / unpickled program must return what the function returns,
+    including the dtype."""
+    src = SeedSource(seed)
+
+    def expr(depth):
+        if depth == 0 or src.pick([0, 0, 1]) == 1:
+            r = src.pick(range(10))
+            if r < 3:
+                return ("in", "n")
+            if r < 5:
+                return ("in", "x")
+            v, t = src.pick(SC_LITS)
+            return ("lit", v, t)
+        return ("op", src.pick(SC_OPS), expr(depth - 1), expr(depth - 1))
+
+    e = ("op", src.pick(SC_OPS), expr(2), expr(2))
+    return {"scalars": e, "salt": src.pick(range(50)), "parts": (), "mode": "reflect"}
+
+
+def show_scalar(e):
+    if e[0] == "in":
+        return e[1]
+    if e[0] == "lit":
+        return repr(e[1])
+    return f"{e[1]}({show_scalar(e[2])}, {show_scalar(e[3])})"
+
+
 def bindings(inputs, salt):
     out = {}
     for n, d in sorted(inputs.items()):
@@ -97,15 +130,97 @@ class C18(Prop):
     cases = {"quick": 2000, "thorough": 80000}
 
     def strategy(self, tier):
-        return st.integers(0, 2**40).map(robust_gen(gen_case))
+        main = st.integers(0, 2**40).map(robust_gen(gen_case))
+        return st.one_of(main, main, main, main, st.integers(0, 2**40).map(gen_scalar_case))
 
     def describe(self, case):
+        if "scalars" in case:
+            return "[traced function of ops] " + show_scalar(case["scalars"])
         return f"[{case['mode']}] (" + ", ".join(show(p) for p in case["parts"]) + ")"
 
     def signature(self, case):
+        if "scalars" in case:
+            return "scalars"
         return case["mode"] + "|" + "+".join(sorted({ast_signature(p) for p in case["parts"]}))[:200]
 
+    def check_scalars(self, case, stt):
+        import pickle
+
+        import funsor.ops as ops
+        from funsor.ops.tracer import trace_function
+        from vf.build import BINARY
+
+        e = case["scalars"]
+
+        def ev(t, env):
+            if t[0] == "in":
+                return env[t[1]]
+            if t[0] == "lit":
+                return int(t[1]) if t[2] == "int" else float(t[1])
+            return BINARY[t[1]](ev(t[2], env), ev(t[3], env))
+
+        def walk_(t):
+            yield t
+            if t[0] == "op":
+                yield from walk_(t[2])
+                yield from walk_(t[3])
+
+        used = sorted({t[1] for t in walk_(e) if t[0] == "in"})
+        if not used:
+            raise Decline("no array input")
+        if e[2][0] != "in" and e[3][0] != "in" and not any(t[0] == "op" and (t[2][0] == "in" or t[3][0] == "in") for t in walk_(e)):
+            raise Decline("no op applied to an array")
+
+        def data(salt):
+            return {"n": np.asarray([1 + (salt + 3 * i) % 5 for i in range(3)], dtype=np.int64), "x": np.asarray([0.25 * (1 + (salt + i) % 7) for i in range(3)])}
+
+        fn = lambda **env: ev(e, env)  # noqa: E731
+        d0 = {k: v for k, v in data(case["salt"]).items() if k in used}
+        d1 = {k: v for k, v in data(case["salt"] + 11).items() if k in used}
+        with np.errstate(all="ignore"):
+            try:
+                want0, want1 = fn(**d0), fn(**d1)
+            except Exception as ex:
+                raise Decline("function-raised:" + type(ex).__name__)
+            if not isinstance(want0, np.ndarray):
+                raise Decline("function returns a scalar")
+            try:
+                prog = trace_function(fn, dict(d0))
+            except Exception as ex:
+                raise Decline("trace-raised:" + type(ex).__name__)
+            variants = [("traced", prog)]
+            try:
+                variants.append(("unpickled", pickle.loads(pickle.dumps(prog))))
+            except Exception as ex:
+                raise Violation("pickle-round-trip-failed", f"{type(ex).__name__}: {ex}: {self.describe(case)}")
+            try:
+                env_ = {}
+                exec(prog.as_code(name="printed"), None, env_)
+                variants.append(("printed", env_["printed"]))
+            except Exception:
+                stt.decline("printed-source-does-not-run")
+            for label, f in variants:
+                for d, want in ((d1, want1), (d0, want0)):
+                    try:
+                        got = f(**d)
+                    except Exception as ex:
+                        raise Violation("traced:raises-where-the-function-returns", f"{label}: {type(ex).__name__}: {ex}: {self.describe(case)}")
+                    got, want = np.asarray(got), np.asarray(want)
+                    if got.shape != want.shape or got.dtype.kind != want.dtype.kind or not np.allclose(got.astype(float), want.astype(float), rtol=1e-12, atol=0, equal_nan=True):
+                        raise Violation("traced:differs-from-the-function", f"{label} program gives {got.tolist()} ({got.dtype}), the function {want.tolist()} ({want.dtype}) for {self.describe(case)}")
+        stt.count("scalar-literal-function-checked")
+        lits = {(t[1], t[2]) for t in walk_(e) if t[0] == "lit"}
+        if any((float(v), "int") in {(float(a), b) for a, b in lits} and (float(v), "float") in {(float(a), b) for a, b in lits} for v, _ in lits):
+            stt.mark_nontrivial(case_hash(case))
+
     def shrink_candidates(self, case):
+        if "scalars" in case:
+            e = case["scalars"]
+            if e[0] == "op":
+                for sub in (e[2], e[3]):
+                    if sub[0] == "op":
+                        yield dict(case, scalars=sub)
+            return
         parts = tuple(case["parts"])
         if len(parts) > 1:
             for i in range(len(parts)):
@@ -123,6 +238,8 @@ class C18(Prop):
         from funsor.terms import Tuple
         from vf.build import build
 
+        if "scalars" in case:
+            return self.check_scalars(case, stt)
         parts, mode = tuple(case["parts"]), case["mode"]
         stt.count("mode:" + mode)
         inputs = {}
